@@ -475,3 +475,47 @@ def run_inlinecap(prog, ctx=None):
            "" if ok else "text of %d..%d bytes is kept inline (%s < %d) but _mpt_geninfo_size(%s + 1) refuses it (%s): such values cannot be stored at all" % (
                bad[0][0], bad[-1][0], lenvar, K, lenvar, bad[0][1]), {"threshold": K, "refused": [b[0] for b in bad][:8]})
     return res
+
+
+def run_countfail(prog, ctx=None):
+    """COUNTFAIL: a registration that is refused leaves the registry as it was.  In the type registry every raise of an
+    entry counter (`<chunk>->used++`, a static count `++n` / `n += ..`) publishes an entry; no path from such a raise
+    reaches a `return <negative constant>`."""
+    res = Result("COUNTFAIL")
+    files = sorted(x for x in prog.by_file if x.startswith("mptcore/types/") and x.endswith(".c"))
+    for f in sorted(prog.funcs_in(files), key=lambda f: (f.file, f.line)):
+        if f.nocfg:
+            continue
+        sites = []
+        for b, i, e in f.elements():
+            for n in walk(e):
+                tgt = None
+                if n.get("k") == "un" and n.get("op") == "++":
+                    tgt = strip(n["e"], lvalue_to_rvalue=False)
+                elif n.get("k") == "bin" and n.get("op") == "+=":
+                    tgt = strip(n["a"], lvalue_to_rvalue=False)
+                if tgt is None:
+                    continue
+                if tgt.get("k") == "mem" and tgt.get("f") in ("used", "_used", "count", "len"):
+                    sites.append((b, i, n, show(tgt, f)))
+                elif tgt.get("k") == "ref" and tgt["d"].get("dk") == "global":
+                    sites.append((b, i, n, show(tgt, f)))
+        for b, i, n, what in sites:
+            bad = None
+            reach = {b.id} | set(f.reachable_from(b.id))
+            for x in sorted(reach):
+                for k, e in enumerate(f.blocks[x].el):
+                    if x == b.id and k <= i:
+                        continue
+                    if e.get("k") == "ret" and e.get("e") is not None:
+                        cv = cval(e["e"])
+                        if cv is not None and cv < 0:
+                            bad = e
+            ok = bad is None
+            res.ob("%s:%s" % (f.qn, norm(show(n, f))[:50]), ok, f, n.get("l", f.line),
+                   "" if ok else "%s: after raising %s the function can still return %s (line %s): the refused registration stays counted" % (
+                       f.qn, what, cval(bad["e"]), bad.get("l")))
+            res.count("sites")
+    if res.counters.get("sites", 0) < 3:
+        raise Broken("COUNTFAIL: only %d counter raises found in the type registry" % res.counters.get("sites", 0))
+    return res
